@@ -56,6 +56,19 @@ def cases(tier, seed):
             d.update({"fields": ["temp", "density", "Z"], "layout": lay, "seed": seed,
                       "payload": "hostile" if li % 3 == 1 else (["coded", "signed", "zerofine"] if li % 3 == 2 else "coded")})
             out.append({"desc": d, "w": nlev * (1 + max(len(l["files"]) if l else 1 for l in lay))})
+    # field names that differ only by letter case
+    m = scope.named_meshes(3)[1]
+    d = dict(m)
+    d.update(geos[0])
+    d.update({"fields": list(scope.CASE_FIELDS), "layout": [None, scope.layouts(2, 'idrev')[-1]], "seed": seed, "payload": "coded"})
+    out.append({"desc": d, "w": 12})
+    # FAB header lines longer than 100 bytes (finest of 4 levels in the far corner, 12 fields): one field, the
+    # finest grid only (1024 x 128 x 128), identity schedule
+    d = dict(scope.deep_corner_mesh())
+    d.update(geos[1])
+    d.update({"fields": ["f%d" % i for i in range(12)], "seed": seed, "payload": ["coded", "signed", "pos"] * 4,
+              "layout": [None, scope.layouts(2, 'idrev')[-1], None, scope.layouts(2, 'idrev')[1]]})
+    out.append({"desc": d, "w": 60, "deep": True})
     return out
 
 
@@ -73,11 +86,18 @@ def run_case(case, workdir):
     names = desc["fields"]
     os.chdir(workdir)
     k = 0
-    for limit in [None] + list(range(ref.nlevels)):
+    deep = bool(case.get("deep"))
+    for limit in ([None, 1] if deep else [None] + list(range(ref.nlevels))):
         L = ref.nlevels - 1 if limit is None else limit
-        cov = ref.covering(limit=L)
+        cov = None if deep else ref.covering(limit=L)
         for fi, field in enumerate(names):
+            if deep and fi != 10:
+                continue
+            if deep:
+                one = ref.strain([field]).covering(limit=L)[..., 0]
             for dtype in ("float64", "float32"):
+                if deep and dtype != ("float32" if limit is None else "float64"):
+                    continue
                 if fi > 0 and dtype == "float32" and limit is not None:
                     continue
                 for default_out in ((False, True) if (fi == 0 and limit is None) else (False,)):
@@ -91,7 +111,7 @@ def run_case(case, workdir):
                     else:
                         argv += ["-o", outfile]
                     argv.append("plt00000")
-                    exp = cov[..., fi].astype(dtype)
+                    exp = (one if deep else cov[..., fi]).astype(dtype)
 
                     def run(plan):
                         if os.path.exists(outfile):
@@ -112,7 +132,7 @@ def run_case(case, workdir):
                                 r = ("exc", e)
                         return ctl, r
                     outs = set()
-                    for plan, ctl, (st, val) in explorer.explore(run, bound=1):
+                    for plan, ctl, (st, val) in explorer.explore(run, bound=0 if deep else 1):
                         sub = {"argv": argv, "plan": explorer.plan_json(plan)}
                         rec.exe([dh, sub], nontrivial=(ref.nlevels > 1 or max(c["n"] for c in ctl.calls) > 1),
                                 trans=1 + sum(c["n"] for c in ctl.calls))
